@@ -84,6 +84,26 @@ def _concrete_formula(logl_batches, betas, logzs, beta_final):
     return ws
 
 
+def mis_reference(st, beta_final=1.0):
+    """independent float evaluation of the balance-heuristic weights and evidence from a state's stored history
+    (log-domain, stable); used by replays instead of calling the function under test again."""
+    import math
+    logl_b = [np.asarray(b, dtype=float) for b in st._history["logl"]]
+    betas = [float(b) for b in st._history["beta"]]
+    logzs = [float(z) for z in st._history["logz"]]
+    N = sum(len(b) for b in logl_b)
+    logw = []
+    for b in logl_b:
+        for l in b:
+            terms = [math.log(len(b2) / N) + bt * l - lz for b2, bt, lz in zip(logl_b, betas, logzs)]
+            mx = max(terms)
+            logw.append(beta_final * l - (mx + math.log(sum(math.exp(t - mx) for t in terms))))
+    logw = np.array(logw)
+    mx = logw.max()
+    logz = mx + math.log(np.exp(logw - mx).sum()) - math.log(N)
+    return logw, float(logz)
+
+
 def make_formula(batches, betas, beta_final, D):
     def harness(ctx: PathCtx):
         st, pb, _ = build_state(ctx, batches, betas, D)
@@ -615,7 +635,9 @@ def obligations(tier):
     obs = []
     if tier == "quick":
         cfgs = [((2,), (0,), 1, 2), ((1, 2), (0, H), 1, 2), ((2, 1), (0, 1), H, 2), ((1, 2), (H, 0), 0, 2),
-                ((2, 2), (0, H), H, 2), ((1, 1, 2), (0, H, 1), 1, 2), ((2, 1, 1), (0, 0, H), 1, 2)]
+                ((2, 2), (0, H), H, 2), ((1, 1, 2), (0, H, 1), 1, 2), ((2, 1, 1), (0, 0, H), 1, 2),
+                # unequal batches whose mean size equals the first batch size; two components with identical (beta, logZ) need Z0 == Z1: symbolic Z covers it
+                ((2, 1, 3), (0, H, 1), 1, 2)]
     else:
         cfgs = []
         for batches in [(2,), (1, 2), (2, 1), (3, 1), (2, 2), (1, 1, 2), (2, 1, 1), (1, 2, 3), (3, 2, 1), (2, 3, 3)]:
